@@ -51,11 +51,15 @@ func isRepeatedKeyErr(err error) bool {
 }
 
 type c12Asm struct {
-	prog     *nodes.Prog
-	inj      map[int][]C12Inj
-	mapIdx   int
-	injected int
-	nested   int
+	// deferredOK: the engine's key assembler cannot see its map (generated code: the key assembler is the
+	// key type's own assembler and the map tidies up lazily), so the repeated-key error of the key-assembler
+	// routes may surface from the first call on the value assembler instead of from the key assignment
+	deferredOK bool
+	prog       *nodes.Prog
+	inj        map[int][]C12Inj
+	mapIdx     int
+	injected   int
+	nested     int
 }
 
 func (a *c12Asm) assemble(na datamodel.NodeAssembler, v val.V, depth int) error {
@@ -83,6 +87,10 @@ func (a *c12Asm) assemble(na datamodel.NodeAssembler, v val.V, depth int) error 
 					default:
 						how = "AssembleKey().AssignNode"
 						rerr = ma.AssembleKey().AssignNode(basicnode.NewString(dup))
+					}
+					if rerr == nil && a.deferredOK && in.Style%3 != 0 {
+						how += " + AssembleValue().AssignNull"
+						rerr = ma.AssembleValue().AssignNull()
 					}
 					if rerr == nil {
 						return fmt.Errorf("%s accepted the repeated key %s (map #%d, before entry %d)", how, val.Txt(dup), idx, i)
